@@ -164,7 +164,8 @@ def check(run):
         stats['decl_faults'] += 1
         want = named(base_lines, set(NAMES[:i]))
         got = named([l for l in doc_lines(c['cmds']) if l.startswith('global ')], set(NAMES[:i]))
-        if want != got:
+        it = iter(got)
+        if not all(any(w == g for g in it) for w in want):         # the earlier declarations, unchanged and in order (the faulted text may add a declaration that reuses one of their names)
             diff = [w for w in want if w not in got][:2]
             run.fail('a fault in declaration %d (%r) loses or changes an earlier declaration: %s' % (i, bad[:60], diff[0][:120] if diff else 'order changed'),
                      dict(xml=x, declaration_index=i, text=bad, missing_or_changed=diff), shape='decl-prefix:' + (re.sub(r'\d+', 'N', diff[0].split(':')[0]) if diff else 'order'))
